@@ -200,6 +200,16 @@ class WrapperModel(Model):
             self._lock_count(f[1], st, +1, line)
             outs.append(R(st, C(True)))
             return outs
+        # --- hash(key): raises TypeError for an unhashable key (a probe such as `try: hash(key) / except TypeError: key = str(key)`)
+        if f == ('lib', 'hash') and len(args) == 1 and not kws:
+            outs = []
+            for tok in self.hash_edges(args[0], st):
+                s2 = st.fork()
+                s2.emit('HASHERR', (args[0], C(tok)), line)
+                outs.append(R(s2, None, tok, line))
+            self.mark_hashable(args[0], st)
+            outs.append(R(st, ('call', f, args, kws)))
+            return outs
         # --- library calls that can raise whatever the arguments are: warnings.warn under an "error" filter
         if f[0] == 'lib' and f[1] in ('warnings.warn', 'warnings.warn_explicit'):
             s2 = st.fork()
